@@ -1696,3 +1696,13 @@ M("C06-array-bounds-compared-crosswise", "C06", "src/cppparser/cppArrayType.cxx"
 M("C06-benign-comparison-operands-swapped", "C06", "src/cppparser/cppExpression.cxx",
   "      *_u._op._op3 == *ot->_u._op._op3;", "      *ot->_u._op._op3 == *_u._op._op3;",
   benign=True)
+
+# ---------------------------------------------------------------- R09.10 (seed S7-C09)
+M("C09-comment-scanner-skips-after-star", "C09", "src/cppparser/cppPreprocessor.cxx",
+  "      if (c == '*') {\n        c = get();\n        if (c == '/') {\n          return get();\n        }\n      } else {\n        c = get();\n      }",
+  "      if (c == '*') {\n        c = get();\n        if (c == '/') {\n          return get();\n        }\n      }\n      c = get();",
+  expect="R09.10|skip_c_comment|loop#1")
+M("C09-benign-comment-scanner-flag-form", "C09", "src/cppparser/cppPreprocessor.cxx",
+  "      if (c == '*') {\n        c = get();\n        if (c == '/') {\n          return get();\n        }\n      } else {\n        c = get();\n      }",
+  "      bool star = (c == '*');\n      c = get();\n      if (star && c == '/') {\n        return get();\n      }",
+  benign=True)
